@@ -82,6 +82,7 @@ type Frame struct {
 	loops   []*loopInfo
 	freeVar map[*ssa.FreeVar]Val
 	callOcc map[string]int
+	occOf   map[*ssa.CallCommon]int
 	entrySt *State
 }
 
@@ -125,6 +126,8 @@ type FnCtx struct {
 	retRes    map[string]Val
 	callArgs  []Val
 	frameTargets []modTarget
+	foreignHavoc bool
+	localTouched map[string]bool
 	dry       int
 	noFacts   int
 	qfacts    [][]string
@@ -213,6 +216,9 @@ func (c *FnCtx) heapSet(st *State, name, sort, term string) {
 // derivation (new version = old version with entry `ref` replaced), which the
 // loop rule uses to havoc point-wise instead of whole arrays.
 func (c *FnCtx) heapStore(st *State, name, sort, ref, val string) {
+	if !c.foreignHavoc {
+		c.localTouched[name] = true
+	}
 	old := c.heapGet(st, name, sort)
 	n := c.sc.fresh(name, sort)
 	c.sc.assert(sEq(n, "(store "+old+" "+ref+" "+val+")"))
@@ -226,6 +232,9 @@ type derivInfo struct {
 }
 
 func (c *FnCtx) heapHavoc(st *State, name, sort string) string {
+	if !c.foreignHavoc && c.dry == 0 {
+		c.localTouched[name] = true
+	}
 	c.heapGet(st, name, sort)
 	n := c.sc.fresh(name, sort)
 	st.heap[name] = n
